@@ -146,25 +146,107 @@ Lemma cp_wedge dst src lp :
   rocfl_read_pos PLogicalPath (serde_escape lp) = None.
 Proof. intros _. apply rocfl_read_wedge. Qed.
 
+(** * the content directory names create_object accepts (repo.rs:572-583) *)
+Lemma starts_with_app p s : starts_with p (p ++ s) = true.
+Proof.
+  induction p as [|c p IH]; [reflexivity|]. cbn [app starts_with].
+  now rewrite Ascii.eqb_refl, IH.
+Qed.
+
+Lemma create_object_cdir_parts c : create_object_cdir c = true ->
+  validate_content_dir c = true /\ is_empty c = false /\
+  bytes_eqb c K_INVENTORY_FILE = false /\ starts_with K_INVENTORY_SIDECAR_PREFIX c = false.
+Proof.
+  unfold create_object_cdir, cdir_reserved. intros H.
+  apply andb_true_iff in H as [Hv Hr]. apply negb_true_iff in Hr.
+  apply orb_false_iff in Hr as [Hr H3]. apply orb_false_iff in Hr as [H1 H2]. auto.
+Qed.
+
+Lemma create_object_cdir_iff c : create_object_cdir c = true <->
+  validate_content_dir c = true /\ is_empty c = false /\
+  bytes_eqb c K_INVENTORY_FILE = false /\ starts_with K_INVENTORY_SIDECAR_PREFIX c = false.
+Proof.
+  split; [apply create_object_cdir_parts|].
+  intros (Hv & H1 & H2 & H3). unfold create_object_cdir, cdir_reserved. now rewrite Hv, H1, H2, H3.
+Qed.
+
+(** the fix only refuses more: an accepted name passes validate_content_dir *)
+Lemma create_object_cdir_validates c : create_object_cdir c = true -> validate_content_dir c = true.
+Proof. intros H. apply (create_object_cdir_parts _ H). Qed.
+
+Lemma accepted_cdir_nonempty c : create_object_cdir c = true -> is_empty c = false.
+Proof. intros H. apply (create_object_cdir_parts _ H). Qed.
+
+(** no accepted name is one of the two inventory files of the version directory,
+    whatever the digest algorithm of the object is *)
+Lemma accepted_cdir_no_collision c alg : create_object_cdir c = true -> cdir_collides c alg = false.
+Proof.
+  intros H. destruct (create_object_cdir_parts _ H) as (_ & _ & H2 & H3).
+  unfold cdir_collides. rewrite H2. cbn [orb].
+  destruct (bytes_eqb c (K_INVENTORY_SIDECAR_PREFIX ++ alg)) eqn:E; [|reflexivity].
+  apply bytes_eqb_eq in E. subst c. now rewrite starts_with_app in H3.
+Qed.
+
+(** every colliding name is refused *)
+Lemma collision_refused c alg : cdir_collides c alg = true -> create_object_cdir c = false.
+Proof.
+  intros H. destruct (create_object_cdir c) eqn:E; [|reflexivity].
+  now rewrite (accepted_cdir_no_collision _ alg E) in H.
+Qed.
+
 (** the manifest entry written for an accepted logical path *)
 Lemma content_path_value_ok v cdir lp :
   vwf v = true -> vfits v = true ->
-  validate_content_dir cdir = true -> c10_cdir_empty cdir = false ->
+  create_object_cdir cdir = true ->
   lpath_try_from lp = Ok lp -> is_empty lp = false ->
   pos_value_ok PContentPath (content_path v cdir lp) = true.
 Proof.
-  intros. unfold pos_value_ok. cbn [post_visit]. rewrite content_path_reads by assumption.
+  intros Hwf Hfit Hc Hlp Hne. destruct (create_object_cdir_parts _ Hc) as (Hv & Hcne & _ & _).
+  unfold pos_value_ok. cbn [post_visit]. rewrite content_path_reads by assumption.
   apply bytes_eqb_refl.
 Qed.
 
 Lemma content_path_roundtrip v cdir lp :
   vwf v = true -> vfits v = true ->
-  validate_content_dir cdir = true -> c10_cdir_empty cdir = false ->
+  create_object_cdir cdir = true ->
   lpath_try_from lp = Ok lp -> is_empty lp = false ->
   utf8_valid cdir = true -> utf8_valid lp = true ->
   rocfl_read_pos PContentPath (serde_escape (content_path v cdir lp)) = Some (content_path v cdir lp).
 Proof.
   intros. apply rocfl_read_owned; [reflexivity| now apply content_path_utf8 | now apply content_path_value_ok].
+Qed.
+
+(** create_object followed by the first cp and a commit: the contentDirectory string and
+    the manifest entry are read back unchanged by every later command, and the commit
+    does not find the content directory in the place of an inventory file *)
+Lemma accepted_cdir_no_wedge v cdir lp alg :
+  vwf v = true -> vfits v = true ->
+  create_object_cdir cdir = true ->
+  lpath_try_from lp = Ok lp -> is_empty lp = false ->
+  utf8_valid cdir = true -> utf8_valid lp = true ->
+  rocfl_read_pos PContentDir (serde_escape cdir) = Some cdir /\
+  rocfl_read_pos PContentPath (serde_escape (content_path v cdir lp)) = Some (content_path v cdir lp) /\
+  cdir_collides cdir alg = false.
+Proof.
+  intros Hwf Hfit Hc Hlp Hne Uc Ul. split; [|split].
+  - now apply owned_text_roundtrip.
+  - now apply content_path_roundtrip.
+  - now apply accepted_cdir_no_collision.
+Qed.
+
+(** historical (before d88c1da): the blank name and both inventory names were accepted *)
+Lemma before_fix_accepted_blank_and_inventory_names alg :
+  create_object_cdir_before_fix [] = true /\
+  create_object_cdir_before_fix K_INVENTORY_FILE = true /\ cdir_collides K_INVENTORY_FILE alg = true /\
+  (existsb (fun x => code x =? 47) alg = false ->
+   create_object_cdir_before_fix (K_INVENTORY_SIDECAR_PREFIX ++ alg) = true /\
+   cdir_collides (K_INVENTORY_SIDECAR_PREFIX ++ alg) alg = true).
+Proof.
+  split; [reflexivity|]. split; [reflexivity|]. split; [reflexivity|].
+  intros Hns. split.
+  - unfold create_object_cdir_before_fix, validate_content_dir.
+    rewrite existsb_app, Hns. reflexivity.
+  - unfold cdir_collides. now rewrite bytes_eqb_refl, orb_true_r.
 Qed.
 
 Lemma content_path_empty_cdir_wedge v lp :
